@@ -26,7 +26,7 @@ PROPERTY = 'C07'
 BUDGET = {'quick': 900, 'thorough': 5400}
 INF = float('inf')
 
-QUICK_SPACES = ('rn3', 'ud3', 'rn3w2', 'rn3wa', 'pw_rn2_2', 'pw_ud2_2', 'nest_rn1_2x2',
+QUICK_SPACES = ('rn2x2', 'pw_rn2_2_c', 'rn3', 'ud3', 'rn3w2', 'rn3wa', 'pw_rn2_2', 'pw_ud2_2', 'nest_rn1_2x2',
                 'pr_rn2_rn2_w', 'rn2')
 DER_BASES = ['L1Norm', 'L2NormSquared', 'L2Norm', 'KullbackLeibler', 'IndicatorBox', 'Huber',
              'IndicatorLpUnitBall', 'KullbackLeiblerCrossEntropy']
@@ -133,9 +133,9 @@ def _space_kind(name):
 
 
 def _weight_kind(name):
-    if name in ('rn3', 'rn2', 'pw_rn2_2', 'nest_rn1_2x2', 'nest_rn2_2x2', 'rn3f32'):
+    if name in ('rn3', 'rn2', 'pw_rn2_2', 'nest_rn1_2x2', 'nest_rn2_2x2', 'rn3f32', 'rn2x2'):
         return 'unweighted'
-    if name in ('rn3w2', 'rn2w2', 'pw_rn2w2_2', 'ud3', 'ud2', 'pw_ud2_2'):
+    if name in ('rn3w2', 'rn2w2', 'pw_rn2w2_2', 'ud3', 'ud2', 'pw_ud2_2', 'pw_rn2_2_c'):
         return 'const-weighted'
     return 'nonuniformly-weighted'
 
